@@ -337,11 +337,16 @@ class FnExec:
                 return self.e_Set(ast.Set(elts=n.args[0].elts), st, pc)
             if nm == "range" and len(n.args) in (1, 2):
                 a = [self.expr(x, st, pc).z for x in n.args]; lo, hi = (z3.IntVal(0), a[0]) if len(a) == 1 else (a[0], a[1])
-                out = fresh(ListT(INT), "range"); q = fresh_int("q")
-                pc.append(out.t.len(out.z) == z3.If(hi > lo, hi - lo, 0)); pc.append(z3.ForAll([q], out.t.at(out.z, q) == lo + q))
-                out.meta = {"range": (lo, hi)}
-                return out
-            if self.reg.has_cls(nm): return self.call_contract(f"{nm}.__init__", None, n, st, pc, ctor=nm)
+                LI = ListT(INT); RF = z3.Function("py_range", z3.IntSort(), z3.IntSort(), LI.sort())
+                if "py_range" not in self.th.funcs:          # range(lo, hi) as a total function of its bounds: no side conditions, usable inside comprehensions
+                    self.th.funcs["py_range"] = RF; l_, h_, q_ = z3.Ints("rl_ rh_ rq_")
+                    self.th.axioms.append(z3.ForAll([l_, h_], LI.len(RF(l_, h_)) == z3.If(h_ > l_, h_ - l_, 0), patterns=[RF(l_, h_)]))
+                    self.th.axioms.append(z3.ForAll([l_, h_, q_], LI.at(RF(l_, h_), q_) == l_ + q_, patterns=[LI.at(RF(l_, h_), q_)]))
+                return Val(LI, RF(lo, hi), meta={"range": (lo, hi)})
+            if self.reg.has_cls(nm):
+                q, owner = self.reg.resolve_method(nm, "__init__")
+                if q is None: raise Unsupported(f"constructor of {nm} has no contract")
+                return self.call_contract(q, None, n, st, pc, ctor=nm, owner=owner)
             if self.reg.has_fn(nm): return self.call_contract(nm, None, n, st, pc)
             raise Unsupported(f"call of {nm}")
         if isinstance(f, ast.Attribute):
@@ -352,20 +357,22 @@ class FnExec:
                 root, steps = self.path_of(f.value, st, pc); recv = self.read_path(st, root, steps)
             except Unsupported:
                 root, steps = None, None; recv = self.expr(f.value, st, pc)
-            if isinstance(recv.t, RecT) and self.reg.has_fn(f"{recv.t.name}.{f.attr}"):
-                return self.call_contract(f"{recv.t.name}.{f.attr}", (root, steps, recv), n, st, pc)
+            if isinstance(recv.t, RecT):
+                q, owner = self.reg.resolve_method(recv.t.name, f.attr)
+                if q is not None: return self.call_contract(q, (root, steps, recv), n, st, pc, owner=owner)
             h = self.reg.methods.get((recv.t.name if isinstance(recv.t, RecT) else type(recv.t).__name__, f.attr))
             if h is None: raise Unsupported(f"method .{f.attr} on {recv.t!r}")
             args = [self.expr(a, st, pc) for a in n.args]
             return h(self, recv, args, st, root, steps, pc, n)
         raise Unsupported("call form")
 
-    def call_contract(self, qual, recv, n, st, pc, ctor=None):
+    def call_contract(self, qual, recv, n, st, pc, ctor=None, owner=None):
         """modular call: assert requires, havoc frame, assume ensures; exceptional exits per callee's raises"""
         _, cs = self.reg.fn(qual)
         cdef = self.reg.find_def(self.reg.fn(qual)[0].relpath, qual)
         pnames = [a.arg for a in cdef.args.args if a.arg != "self"]
         args = [self.expr(a, st, pc) for a in n.args]
+        if n.keywords: raise Unsupported(f"keyword arguments in a modular call of {qual}")
         callee = State()
         if ctor:
             ct = self.reg.cls(ctor).ty; selfv = fresh(ct, "new_" + ctor); callee.env["self"] = selfv
@@ -375,6 +382,11 @@ class FnExec:
         for g in cs.ghost:
             src = self.spec.call_ghosts.get(qual, {}).get(g)
             callee.env[g] = self.spec_expr(src, st, pc) if src else fresh(cs.params[g], g)
+        if recv is not None and not ctor and recv[0] == "self" and not recv[1] and st.undef:
+            need = set(st.undef) - set(getattr(cs, "assigns", []) or [])
+            need &= set(self.reg.cls(owner).fields) if owner and self.reg.has_cls(owner) else need
+            if need: self.oblige(f"safe.defined({','.join(sorted(need))})@call.{qual}@{n.lineno}", "safe.defined", pc, z3.BoolVal(False), n)
+            st.undef -= set(getattr(cs, "assigns", []) or [])
         pre = callee.copy(); pre.old = None
         if not ctor:
             for nm, e in cs.requires.items():
@@ -385,6 +397,11 @@ class FnExec:
         if not cs.pure:
             if recv is not None and not ctor:
                 post.env["self"] = fresh(recv[2].t, "self_after"); changed.append("self")
+                if owner is not None and owner != recv[2].t.name and self.reg.has_cls(owner):
+                    # inherited method: fields the defining class does not declare are outside its frame (A-INHERIT)
+                    for fld in recv[2].t.fs:
+                        if fld not in self.reg.cls(owner).fields: pc.append(recv[2].t.getf(post.env["self"].z, fld) == recv[2].t.getf(recv[2].z, fld))
+                    self.assumptions.add("A-INHERIT: a method inherited from a base class modifies only fields the base class declares")
         res = fresh(cs.ret, "ret") if cs.ret is not None else Val(NONE, z3.BoolVal(True))
         post.env["result"] = res
         for v in [post.env.get("self"), res]:
@@ -568,7 +585,10 @@ class FnExec:
         return [Outcome("normal", st, pc)]
     def rhs(self, node, tgt, st, pc):
         if (isinstance(node, ast.Dict) and not node.keys) or (isinstance(node, ast.List) and not node.elts):
-            return empty(self.declared_type(tgt, st))
+            t = self.declared_type(tgt, st)
+            if isinstance(t, RecT) and hasattr(t, "empty"):          # parameter dictionary modelled as a record (vf.idioms.params_record)
+                v, cons = t.empty(); pc.extend(cons); return v
+            return empty(t)
         return self.expr(node, st, pc)
     def declared_type(self, tgt, st):
         if isinstance(tgt, ast.Attribute):
@@ -834,6 +854,7 @@ class FnExec:
             if a.arg == "self":
                 ct = self.reg.cls(self.cls).ty; st.env["self"] = fresh(ct, "self")
                 if is_init: st.undef = set(ct.fs)
+                elif getattr(spec, "assigns", None): st.undef = set(spec.assigns)
             else:
                 if a.arg not in spec.params: raise ContractDrift(f"{self.qual}: parameter {a.arg} not in the sidecar contract")
                 st.env[a.arg] = fresh(spec.params[a.arg], a.arg)
@@ -850,7 +871,7 @@ class FnExec:
         for pi, o in enumerate(outs):
             if o.kind in ("normal", "return"):
                 s2 = o.state.copy(); s2.env["result"] = o.value if o.value is not None else Val(NONE, z3.BoolVal(True))
-                if is_init and o.state.undef:
+                if (is_init or getattr(spec, "assigns", None)) and o.state.undef:
                     self.oblige(f"path{pi}.init.all_fields_assigned({','.join(sorted(o.state.undef))})", "safe.defined", o.pc, z3.BoolVal(False), self.fn)
                 pcx = list(o.pc)
                 for nm, e in spec.exit_hints.items():
